@@ -79,6 +79,7 @@ Record st := {
   tick : bool;                 (* a timer tick is pending *)
   cc : cpc;
   forced : bool;               (* pollNotifyForced (repair only) *)
+  allowed : bool;              (* accelerationAllowed (static: scan mode accelerated) *)
   (* ghost *)
   last_tend : nat;             (* step of the last Transition end that had made changes *)
   g_based : bool;
@@ -90,9 +91,9 @@ Record st := {
   log : list event             (* newest first *)
 }.
 
-Definition init (d : nat) : st :=
+Definition init (a : bool) (d : nat) : st :=
   {| disk := d; now := 1; snap := None; accel := false; lock := Free; pc := PWait; pfirst := true;
-     pprev := 0; tick := false; cc := CIdle; forced := false; last_tend := 0; g_based := false;
+     pprev := 0; tick := false; cc := CIdle; forced := false; allowed := a; last_tend := 0; g_based := false;
      g_edits := 0; g_tchg := false; g_tended := false; g_tbe := false; g_sae := false; log := [] |}.
 
 Inductive action :=
@@ -128,14 +129,14 @@ Variable fixed : bool.
 Definition bump (s : st) : st :=
   {| disk := disk s; now := S (now s); snap := snap s; accel := accel s; lock := lock s; pc := pc s;
      pfirst := pfirst s; pprev := pprev s; tick := tick s; cc := cc s; forced := forced s;
-     last_tend := last_tend s; g_based := g_based s; g_edits := g_edits s; g_tchg := g_tchg s;
+     allowed := allowed s; last_tend := last_tend s; g_based := g_based s; g_edits := g_edits s; g_tchg := g_tchg s;
      g_tended := g_tended s; g_tbe := g_tbe s; g_sae := g_sae s; log := log s |}.
 
 Definition strobe (src : source) (s : st) : st :=
   {| disk := disk s; now := now s; snap := snap s; accel := accel s; lock := lock s;
      pc := pc_strobed (pc s);
      pfirst := pfirst s; pprev := pprev s; tick := tick s; cc := cc s; forced := forced s;
-     last_tend := last_tend s; g_based := g_based s; g_edits := g_edits s; g_tchg := g_tchg s;
+     allowed := allowed s; last_tend := last_tend s; g_based := g_based s; g_edits := g_edits s; g_tchg := g_tchg s;
      g_tended := g_tended s; g_tbe := g_tbe s; g_sae := true;
      log := EvStrobe src (now s) :: log s |}.
 
@@ -144,7 +145,7 @@ Definition step (s : st) (a : action) : option st :=
   | ATick =>
       Some (bump {| disk := disk s; now := now s; snap := snap s; accel := accel s; lock := lock s;
                     pc := pc s; pfirst := pfirst s; pprev := pprev s; tick := true; cc := cc s;
-                    forced := forced s; last_tend := last_tend s; g_based := g_based s;
+                    forced := forced s; allowed := allowed s; last_tend := last_tend s; g_based := g_based s;
                     g_edits := g_edits s; g_tchg := g_tchg s; g_tended := g_tended s;
                     g_tbe := g_tbe s; g_sae := g_sae s; log := log s |})
   | APollBegin =>
@@ -154,7 +155,7 @@ Definition step (s : st) (a : action) : option st :=
           if pfirst s || tick s then
             Some (bump {| disk := disk s; now := now s; snap := snap s; accel := false; lock := ByPoll;
                           pc := PScanning (now s) (pfirst s); pfirst := false; pprev := pprev s;
-                          tick := false; cc := cc s; forced := forced s; last_tend := last_tend s;
+                          tick := false; cc := cc s; forced := forced s; allowed := allowed s; last_tend := last_tend s;
                           g_based := g_based s; g_edits := g_edits s; g_tchg := g_tchg s;
                           g_tended := g_tended s; g_tbe := g_tbe s; g_sae := g_sae s; log := log s |})
           else None
@@ -167,7 +168,7 @@ Definition step (s : st) (a : action) : option st :=
           Some (bump (strobe SrcPollFail
                  {| disk := disk s; now := now s; snap := snap s; accel := accel s; lock := Free;
                     pc := PWait; pfirst := pfirst s; pprev := pprev s; tick := tick s; cc := cc s;
-                    forced := forced s; last_tend := last_tend s; g_based := g_based s;
+                    forced := forced s; allowed := allowed s; last_tend := last_tend s; g_based := g_based s;
                     g_edits := g_edits s; g_tchg := g_tchg s; g_tended := g_tended s;
                     g_tbe := g_tbe s; g_sae := g_sae s; log := log s |}))
       | _ => None
@@ -180,7 +181,7 @@ Definition step (s : st) (a : action) : option st :=
                                 {| wbased := g_based s; wedits := g_edits s; wtchg := g_tchg s;
                                    wtbe := g_tbe s; wsa := g_sae s |};
                         pfirst := pfirst s; pprev := pprev s; tick := tick s; cc := cc s;
-                        forced := forced s; last_tend := last_tend s; g_based := true;
+                        forced := forced s; allowed := allowed s; last_tend := last_tend s; g_based := true;
                         g_edits := 0; g_tchg := false; g_tended := false; g_tbe := false;
                         g_sae := g_sae s; log := log s |})
       | _ => None
@@ -191,11 +192,11 @@ Definition step (s : st) (a : action) : option st :=
       | PScanned b f c w =>
           Some (bump {| disk := disk s; now := now s;
                         snap := Some {| scontent := c; sbegan := b; sread := now s |};
-                        accel := true; lock := Free;
+                        accel := allowed s; lock := Free;
                         pc := PCompare c f (fixed && forced s) w;
                         pfirst := pfirst s; pprev := pprev s; tick := tick s; cc := cc s;
                         forced := if fixed then false else forced s;
-                        last_tend := last_tend s; g_based := g_based s; g_edits := g_edits s;
+                        allowed := allowed s; last_tend := last_tend s; g_based := g_based s; g_edits := g_edits s;
                         g_tchg := g_tchg s; g_tended := g_tended s; g_tbe := g_tbe s;
                         g_sae := g_sae s; log := log s |})
       | _ => None
@@ -207,7 +208,7 @@ Definition step (s : st) (a : action) : option st :=
           let strobes := (modified && negb ign) || fz in
           let s1 := {| disk := disk s; now := now s; snap := snap s; accel := accel s; lock := lock s;
                        pc := PWait; pfirst := pfirst s; pprev := c; tick := tick s; cc := cc s;
-                       forced := forced s; last_tend := last_tend s; g_based := g_based s;
+                       forced := forced s; allowed := allowed s; last_tend := last_tend s; g_based := g_based s;
                        g_edits := g_edits s; g_tchg := g_tchg s; g_tended := g_tended s;
                        g_tbe := g_tbe s; g_sae := g_sae s;
                        log := EvPollCompare modified strobes :: log s |} in
@@ -223,7 +224,7 @@ Definition step (s : st) (a : action) : option st :=
                 Some (bump {| disk := disk s; now := now s; snap := snap s; accel := accel s;
                               lock := lock s; pc := pc s; pfirst := pfirst s; pprev := pprev s;
                               tick := tick s; cc := cc s; forced := forced s;
-                              last_tend := last_tend s; g_based := g_based s; g_edits := g_edits s;
+                              allowed := allowed s; last_tend := last_tend s; g_based := g_based s; g_edits := g_edits s;
                               g_tchg := g_tchg s; g_tended := g_tended s; g_tbe := g_tbe s;
                               g_sae := g_sae s;
                               log := EvScanCached (scontent i) (sbegan i) (last_tend s) :: log s |})
@@ -233,7 +234,7 @@ Definition step (s : st) (a : action) : option st :=
             Some (bump {| disk := disk s; now := now s; snap := snap s; accel := accel s;
                           lock := ByCtrl; pc := pc s; pfirst := pfirst s; pprev := pprev s;
                           tick := tick s; cc := CScanning (now s) None; forced := forced s;
-                          last_tend := last_tend s; g_based := g_based s; g_edits := g_edits s;
+                          allowed := allowed s; last_tend := last_tend s; g_based := g_based s; g_edits := g_edits s;
                           g_tchg := g_tchg s; g_tended := g_tended s; g_tbe := g_tbe s;
                           g_sae := g_sae s; log := log s |})
       | _, _ => None
@@ -244,7 +245,7 @@ Definition step (s : st) (a : action) : option st :=
           Some (bump {| disk := disk s; now := now s; snap := snap s; accel := accel s; lock := lock s;
                         pc := pc s; pfirst := pfirst s; pprev := pprev s; tick := tick s;
                         cc := CScanning b (Some (disk s)); forced := forced s;
-                        last_tend := last_tend s; g_based := g_based s; g_edits := g_edits s;
+                        allowed := allowed s; last_tend := last_tend s; g_based := g_based s; g_edits := g_edits s;
                         g_tchg := g_tchg s; g_tended := g_tended s; g_tbe := g_tbe s;
                         g_sae := g_sae s; log := log s |})
       | _ => None
@@ -258,7 +259,7 @@ Definition step (s : st) (a : action) : option st :=
                             snap := Some {| scontent := c; sbegan := b; sread := now s |};
                             accel := accel s; lock := Free; pc := pc s; pfirst := pfirst s;
                             pprev := pprev s; tick := tick s; cc := CIdle; forced := forced s;
-                            last_tend := last_tend s; g_based := g_based s; g_edits := g_edits s;
+                            allowed := allowed s; last_tend := last_tend s; g_based := g_based s; g_edits := g_edits s;
                             g_tchg := g_tchg s; g_tended := g_tended s; g_tbe := g_tbe s;
                             g_sae := g_sae s; log := EvScanFull c b :: log s |})
           | true, None => None
@@ -266,7 +267,7 @@ Definition step (s : st) (a : action) : option st :=
               Some (bump {| disk := disk s; now := now s; snap := snap s; accel := accel s;
                             lock := Free; pc := pc s; pfirst := pfirst s; pprev := pprev s;
                             tick := tick s; cc := CIdle; forced := forced s;
-                            last_tend := last_tend s; g_based := g_based s; g_edits := g_edits s;
+                            allowed := allowed s; last_tend := last_tend s; g_based := g_based s; g_edits := g_edits s;
                             g_tchg := g_tchg s; g_tended := g_tended s; g_tbe := g_tbe s;
                             g_sae := g_sae s; log := EvScanFail :: log s |})
           end
@@ -277,7 +278,7 @@ Definition step (s : st) (a : action) : option st :=
       | CIdle, Free =>
           Some (bump {| disk := disk s; now := now s; snap := snap s; accel := accel s; lock := lock s;
                         pc := pc s; pfirst := pfirst s; pprev := pprev s; tick := tick s;
-                        cc := TRunning false; forced := forced s; last_tend := last_tend s;
+                        cc := TRunning false; forced := forced s; allowed := allowed s; last_tend := last_tend s;
                         g_based := g_based s; g_edits := g_edits s; g_tchg := g_tchg s;
                         g_tended := g_tended s; g_tbe := g_tbe s; g_sae := g_sae s; log := log s |})
       | _, _ => None
@@ -287,7 +288,7 @@ Definition step (s : st) (a : action) : option st :=
       | TRunning _ =>
           Some (bump {| disk := c; now := now s; snap := snap s; accel := accel s; lock := lock s;
                         pc := pc s; pfirst := pfirst s; pprev := pprev s; tick := tick s;
-                        cc := TRunning true; forced := forced s; last_tend := last_tend s;
+                        cc := TRunning true; forced := forced s; allowed := allowed s; last_tend := last_tend s;
                         g_based := g_based s; g_edits := g_edits s; g_tchg := true;
                         g_tended := g_tended s; g_tbe := g_tbe s; g_sae := g_sae s; log := log s |})
       | _ => None
@@ -299,7 +300,7 @@ Definition step (s : st) (a : action) : option st :=
                        accel := if ch then false else accel s; lock := Free; pc := pc s;
                        pfirst := pfirst s; pprev := pprev s; tick := tick s; cc := CIdle;
                        forced := if fixed && ch then true else forced s;
-                       last_tend := if ch then now s else last_tend s;
+                       allowed := allowed s; last_tend := if ch then now s else last_tend s;
                        g_based := g_based s; g_edits := g_edits s; g_tchg := g_tchg s;
                        g_tended := if ch then true else g_tended s; g_tbe := g_tbe s;
                        g_sae := g_sae s; log := log s |} in
@@ -313,7 +314,7 @@ Definition step (s : st) (a : action) : option st :=
       else
         Some (bump {| disk := c; now := now s; snap := snap s; accel := accel s; lock := lock s;
                       pc := pc s; pfirst := pfirst s; pprev := pprev s; tick := tick s; cc := cc s;
-                      forced := forced s; last_tend := last_tend s; g_based := g_based s;
+                      forced := forced s; allowed := allowed s; last_tend := last_tend s; g_based := g_based s;
                       g_edits := S (g_edits s); g_tchg := g_tchg s; g_tended := g_tended s;
                       g_tbe := g_tended s; g_sae := false; log := log s |})
   end.
